@@ -204,6 +204,76 @@ def search(ctx):
     return None
 
 
+# ---------------- Triangle.elevate (hand model Model/TriElevate.v) ----------------
+def gen_tri_elev(ctx):
+    rng = ctx.rng
+    out = []
+    for d in list(range(1, 13)) * (2 if ctx.quick() else 12):
+        n = (d + 1) * (d + 2) // 2
+        kind = rng.choice(["exact", "exact", "float", "unit"])
+        dim = rng.randint(1, 3)
+        if kind == "exact":      # multiples of d + 1: every division by d + 1 is exact, the whole net must agree exactly
+            rows = [[(d + 1) * dyadic(rng, 20, 6) for _ in range(n)] for _ in range(dim)]
+        elif kind == "unit":
+            rows = []
+            for _ in range(dim):
+                j = rng.randrange(n)
+                rows.append([Fraction(d + 1 if i == j else 0) for i in range(n)])
+        else:                    # decimal data: corners are NOT preserved by ((d+1) v)/(d+1) in binary64
+            rows = [[Fraction(float(Fraction(rng.randint(-1000, 1000), 10))) for _ in range(n)] for _ in range(dim)]
+        out.append({"d": d, "rows": rows, "kind": kind})
+    return out
+
+
+def tri_elev_exact(d, v):
+    """the defining formula (d+1) w_ijk = i v_(i-1)jk + j v_i(j-1)k + k v_ij(k-1), exactly"""
+    idx = {}
+    pos = 0
+    for k in range(d + 1):
+        for j in range(d + 1 - k):
+            idx[(j, k)] = v[pos]; pos += 1
+    out = []
+    for k in range(d + 2):
+        for j in range(d + 2 - k):
+            i = d + 1 - j - k
+            t = Fraction(0)
+            if i > 0:
+                t += i * idx[(j, k)]
+            if j > 0:
+                t += j * idx[(j - 1, k)]
+            if k > 0:
+                t += k * idx[(j, k - 1)]
+            out.append(t / (d + 1))
+    return out
+
+
+def coq_tri_elev(c, obs):
+    if obs[0][0] in ("exc", "malformed"):
+        return None
+    big = max(abs(x) for r in c["rows"] for x in r) or Fraction(1)
+    tol = Fraction(0) if c["kind"] != "float" else 8 * U * big
+    return ["(%d%%nat, %s, %s, 0, %s)" % (c["d"], coq_list(c["rows"][i]), coq_list(out), coq_q(tol)) for (_k, i, out) in obs]
+
+
+def judge_tri_elev(c, op, cfg, raw):
+    if "exc" in raw:
+        return "raised %s: %s" % (raw["exc"], raw.get("msg"))
+    res = dec_res(raw["ok"])
+    d = c["d"]
+    big = max(abs(x) for r in c["rows"] for x in r) or Fraction(1)
+    for v, out in zip(c["rows"], res):
+        want = tri_elev_exact(d, v)
+        if len(out) != len(want):
+            return "elevated net has %d nodes, expected %d" % (len(out), len(want))
+        for (name, a, b) in (("first", 0, 0), ("second", d, d + 1), ("third", len(v) - 1, len(out) - 1)):
+            if out[b] != v[a]:
+                return "the %s corner is not copied bit-for-bit: %r -> %r" % (name, float(v[a]), float(out[b]))
+        for x, w in zip(out, want):
+            if abs(x - w) > 8 * U * big:
+                return "elevated node %r differs from the defining formula %r" % (float(x), float(w))
+    return None
+
+
 def run(ctx):
     prove(ctx, DEPS)
     a = lambda c: [enc_arr(c["rows"])]
@@ -220,11 +290,13 @@ def run(ctx):
     correspond(ctx, "full_reduce", gen_full(ctx),
                [("shim.full_reduce", a, whole), ("hazmat.full_reduce", a, whole)],
                coq_full, HEADER, "chk_full_reduce", judge=judge_full, nontrivial=nontriv)
+    correspond(ctx, "Triangle_elevate", gen_tri_elev(ctx), [("Triangle.elevate", a, rows_out)],
+               coq_tri_elev, HEADER, "chk_tri_elevate", judge=judge_tri_elev, nontrivial=nontriv)
     return finish(ctx, "theorems about the Gallina model of elevate_nodes / reduce_pseudo_inverse / maybe_reduce with tables, "
                   "denominators, dispatch and threshold regenerated from the source; reduce-inverts-elevate is proved over R "
                   "(real-number axioms of the standard library); Fortran closed forms tied by correspondence; "
-                  "Triangle.elevate: see evidence notes",
+                  "Triangle.elevate: hand model (gather form of the scatter loop, corners copied) proved shape-preserving for every degree and corresponded (exact on multiples of d+1, corners bit-for-bit on decimal data)",
                   search=search,
                   unproved=["Moore-Penrose equations => least-squares optimality is standard linear algebra, not formalised",
                             "maybe_reduce's float threshold decision near 2^-26 (only distances 0, 2^-40, 2^-20 are corresponded)",
-                            "Triangle.elevate (model pending)"])
+                            "Triangle.elevate's scatter loop is modelled in gather form (tied by correspondence, not by a lemma)"])
